@@ -73,6 +73,9 @@ class NpBool:
     def __repr__(self):
         return f"np.bool_({self.v})"
 
+    def __str__(self):
+        return str(self.v)
+
 
 class NpInt:
     def __init__(self, v):
@@ -125,6 +128,9 @@ class NpInt:
     def __repr__(self):
         return f"np.int64({self.v})"
 
+    def __str__(self):
+        return str(self.v)
+
 
 numbers.Integral.register(NpInt)
 
@@ -132,6 +138,9 @@ numbers.Integral.register(NpInt)
 class NpFloat(float):
     def __repr__(self):
         return f"np.float64({float(self)!r})"
+
+    def __str__(self):
+        return repr(float(self))
 
 
 class NdArray:
@@ -243,8 +252,17 @@ class NdArray:
         raise TypeError("only length-1 arrays can be converted")
 
     def _elementwise(self, o, op):
-        if isinstance(o, (NdArray, list, tuple)):
-            raise AnalysisError("model: array-array comparison unsupported")
+        if isinstance(o, (list, tuple)):
+            o = NdArray.of(o)
+        if isinstance(o, NdArray):
+            if o.shape != self.shape:
+                raise ValueError("operands could not be broadcast together")
+
+            def rec2(d, e, depth):
+                if depth == len(self.shape):
+                    return bool(op(d, e))
+                return [rec2(x, y, depth + 1) for x, y in zip(d, e)]
+            return NdArray(rec2(self.data, o.data, 0), self.shape, "bool")
 
         def rec(d, depth):
             if depth == len(self.shape):
@@ -264,6 +282,18 @@ class NdArray:
 
     def tolist(self):
         return self.data
+
+    def flat(self):
+        out = []
+
+        def rec(d, depth):
+            if depth == len(self.shape):
+                out.append(d)
+            else:
+                for x in d:
+                    rec(x, depth + 1)
+        rec(self.data, 0)
+        return out
 
     def __repr__(self):
         return f"np.array({self.data!r})"
@@ -388,6 +418,12 @@ class Func:
     def __call__(self, *args, **kwargs):
         return self.interp.call(self, args, kwargs)
 
+    def __deepcopy__(self, memo):
+        return self     # functions are atomic for copy.deepcopy
+
+    def __copy__(self):
+        return self
+
     def __repr__(self):
         return f"<interpreted {self.__name__}>"
 
@@ -403,17 +439,29 @@ class Interp:
     def call(self, fn, args, kwargs):
         node = fn.node
         a = node.args
-        if a.vararg or a.kwarg or a.kwonlyargs or a.posonlyargs:
+        if a.kwonlyargs or a.posonlyargs:
             raise AnalysisError(
                 f"model: unsupported signature of {fn.__name__}")
         names = [p.arg for p in a.args]
+        loc = {}
         if len(args) > len(names):
-            raise ModelRaise("TypeError", "too many arguments")
-        loc = dict(zip(names, args))
+            if not a.vararg:
+                raise ModelRaise("TypeError", "too many arguments")
+            loc[a.vararg.arg] = tuple(args[len(names):])
+            args = args[:len(names)]
+        elif a.vararg:
+            loc[a.vararg.arg] = ()
+        loc.update(zip(names, args))
+        extra = {}
         for k, v in kwargs.items():
-            if k not in names or k in loc:
+            if k in names and k not in loc:
+                loc[k] = v
+            elif a.kwarg and k not in names:
+                extra[k] = v
+            else:
                 raise ModelRaise("TypeError", f"argument {k}")
-            loc[k] = v
+        if a.kwarg:
+            loc[a.kwarg.arg] = extra
         defaults = a.defaults
         for p, d in zip(names[len(names) - len(defaults):], defaults):
             if p not in loc:
@@ -584,8 +632,12 @@ class Interp:
             kw = {}
             for k in e.keywords:
                 if k.arg is None:
-                    raise AnalysisError(f"model: **kwargs in `{txt(e)}`")
-                kw[k.arg] = self.ev(k.value, *env)
+                    more = self.ev(k.value, *env)
+                    if not isinstance(more, dict):
+                        raise ModelRaise("TypeError", "** needs a mapping")
+                    kw.update(more)
+                else:
+                    kw[k.arg] = self.ev(k.value, *env)
             if isinstance(f, Func) or getattr(f, "model_callable", False):
                 return f(*args, **kw)
             if not callable(f):
@@ -692,8 +744,11 @@ class Interp:
         hook = getattr(obj, "model_getattr", None)
         if hook is not None:
             return hook(attr)
+        if isinstance(obj, Namespace) and attr in obj.__dict__:
+            return obj.__dict__[attr]
         if isinstance(obj, _ATTR_OK) or obj is numbers \
-                or isinstance(obj, type):
+                or isinstance(obj, type) \
+                or getattr(type(obj), "model_object", False):
             if attr.startswith("_") and not isinstance(obj, Namespace):
                 raise AnalysisError(f"model: private attribute `{txt(node)}`")
             try:
